@@ -22,8 +22,10 @@
 (*      obs = [mass, mu, force |-> Seq(getter result per unit),             *)
 (*             cmass |-> Consist::mass(), cforce |-> Consist::force_max(),  *)
 (*             tstatic |-> TrainState.mass_static of the built train]       *)
-(* mode "load": st = the fields written to a JSON / YAML file (component or *)
-(*      one-unit consist), obs as above after from_json / from_yaml.        *)
+(* mode "loadcomp" / "loadloco": st = the fields written to a JSON / YAML    *)
+(*      file (component / one-unit consist); the Load action turns it into  *)
+(*      mode "comp" / "loco" with last = [name |-> "Load", ok |-> accepted] *)
+(*      and obs as above after from_json / from_yaml.                       *)
 (*                                                                          *)
 (* Level A: ComponentConsistent, LocoConsistent, Traction, ConsistMass,     *)
 (*   ConsistForce, TrainStatic (state invariants over fields + getter       *)
@@ -31,17 +33,28 @@
 (*   before and after the last call, carried in pst / pobs / last).         *)
 (* Level B: transcription of the setters (traits.rs:331, fuel_converter.rs  *)
 (*   :113, generator.rs:127, reversible_energy_storage.rs:208,              *)
-(*   locomotive_model.rs:614-760 and :1150-1180, consist_model.rs:181 and   *)
-(*   :511, train_config.rs:155 and :407). Variant = "ascoded" is the code   *)
-(*   as it is: the locomotive setters ASSIGN FIRST and fail afterwards in   *)
-(*   mu()/mass() (F-C20-1), and expunge_mass_fields leaves baseline/ballast *)
-(*   behind. Variant = "repaired" is the deliberate deviation the checked   *)
-(*   configs use: the same statements run on a copy that is committed only  *)
-(*   on success, and expunge also forgets baseline/ballast.                 *)
+(*   locomotive_model.rs:606-770 and :1155-1190, consist_model.rs:181 and   *)
+(*   :511, train_config.rs:155 and :407).                                   *)
+(*   Variant = "repaired" is the code as it is now (after the fix commits   *)
+(*   1bf0962, 95747c9, a97c5ca): the locomotive setters resolve whatever    *)
+(*   can fail before they touch a field, expunge forgets baseline/ballast   *)
+(*   too, init() runs check_force_max. All checked configs and the trace    *)
+(*   config (drift counter) use it.                                         *)
+(*   Variant = "ascoded" is the code as it WAS, kept as the fault model     *)
+(*   (MCMassLedger_ascoded*.cfg, bin/selftest): setters that ASSIGN FIRST   *)
+(*   and fail afterwards in mu()/mass() (F-C20-1, F-C20-3), expunge leaving *)
+(*   baseline/ballast behind (F-C20-4), init() accepting a force_max that   *)
+(*   disagrees with mu * mass * g (F-C20-5).                                *)
+(* Deliberate looseness of Level A: Traction binds force_max to the         *)
+(*   locomotive's OWN mass parameter; after an explicit ...ToNone option a  *)
+(*   mass that is still derivable from components does not bind it. An      *)
+(*   update the code refuses although it could have been resolved is fine   *)
+(*   as long as the refusal is atomic ("rejected or resolved").             *)
 (***************************************************************************)
 EXTENDS Integers, Sequences, FiniteSets, TLC
 
 CONSTANTS Variant        \* "repaired" | "ascoded"
+Old == Variant = "ascoded"      \* the code as it was before the repair commits (fault model)
 
 K == 64
 N == -1
@@ -114,8 +127,8 @@ DerivedA(u) == IF Known(u.base) /\ Known(u.ball) /\ \A j \in Idx(u.comps) : Know
 
 ComponentConsistent ==
   Obj("comp") => /\ CompOk(st)
-                   /\ obs.mass = st.mass                                   \* mass() answers, with the set mass
-                   /\ IF Known(st.spec) THEN obs.derived * st.spec = st.ext * K ELSE obs.derived = N
+                 /\ obs.mass = st.mass                                     \* mass() answers, with the set mass
+                 /\ IF Known(st.spec) THEN obs.derived * st.spec = st.ext * K ELSE obs.derived = N
 UnitConsistent(u, m) == /\ \A j \in Idx(u.comps) : CompOk(u.comps[j])
                         /\ m # E
                         /\ Known(u.mass) => m = u.mass
@@ -186,11 +199,11 @@ Frame == (mode = "loco" /\ last.name \notin {"New", "Load"}) =>
            /\ \A k \in Idx(st.units) : k # last.k => st.units[k] = pst.units[k]
 (* an accepted file is a consistent object (the state invariants above evaluate the loaded object); *)
 (* LoadDecision is Level B: which files are accepted *)
-(* as coded (SerdeAPI::init of the components and of Locomotive): only mass() is consulted, so a file  *)
-(* whose force_max disagrees with mu * mass * g is accepted; the repaired variant refuses it           *)
+(* SerdeAPI::init: components and locomotive consult mass(); since 1bf0962 the locomotive also runs  *)
+(* check_force_max(), before that a file whose force_max disagreed with mu * mass * g was accepted    *)
 LoadOkB(m, s) == IF m = "comp" THEN CMass(s) # E
                  ELSE \A k \in Idx(s.units) : /\ LMass(s.units[k]) # E
-                                              /\ Variant = "repaired" => ForceOk(s.units[k])
+                                              /\ ~Old => ForceOk(s.units[k])
 
 ----------------------------------------------------------------------------
 (* Level B: the setters *)
@@ -208,10 +221,42 @@ CSetMass(c, m, opt) ==                                  \* never fails
   ELSE [c EXCEPT !.mass = m]
 CExpunge(c) == [c EXCEPT !.mass = N, !.spec = N]
 
+(* expunge_mass_fields: since 95747c9 it forgets baseline / ballast as well *)
 LExpunge(u) == LET x == [u EXCEPT !.comps = [j \in Idx(u.comps) |-> CExpunge(u.comps[j])]]
-               IN IF Variant = "repaired" THEN [x EXCEPT !.base = N, !.ball = N] ELSE x
+               IN IF Old THEN x ELSE [x EXCEPT !.base = N, !.ball = N]
 
-LSetMass(u, m, opt) ==                                  \* locomotive_model.rs:632
+(* ---- the code as it is (a97c5ca): everything that can fail is resolved before a field is touched *)
+(* set_mass (locomotive_model.rs:632): side effect, derived_mass(), the mu FIELD and "no mass given, *)
+(* none derivable" are checked first; then expunge-if-different, mass, force_max = mu * mass * g     *)
+LSetMassNew(u, m, opt) ==
+  IF opt # "None" THEN Fail(u)
+  ELSE LET d == LDerived(u) IN
+       IF d = E THEN Fail(u)
+       ELSE IF ~Known(u.mu) THEN Fail(u)
+       ELSE IF m = N /\ d = N THEN Fail(u)
+       ELSE LET u1 == IF Known(m) /\ Known(d) /\ d # m THEN LExpunge(u) ELSE u
+                m1 == IF Known(m) THEN m ELSE d
+            IN Ok([u1 EXCEPT !.mass = m1, !.force = Mul(u.mu, m1)])
+(* set_force_max (:706): the side effect first (Mass: mu FIELD, then set_mass), force_max assigned last *)
+LSetForceNew(u, f, opt) ==
+  CASE opt = "Mass" -> IF ~Known(u.mu) THEN Fail(u)
+                       ELSE LET r == LSetMassNew(u, Div(f, u.mu), "None")
+                            IN IF r.ok THEN Ok([r.u EXCEPT !.force = f]) ELSE Fail(u)
+    [] opt = "UpdateMu" -> Ok([u EXCEPT !.force = f, !.mu = IF Known(u.mass) THEN Div(f, u.mass) ELSE N])
+    [] opt = "SetMuToNone" -> Ok([u EXCEPT !.force = f, !.mu = N])
+    [] opt = "SetMassToNone" -> Ok([u EXCEPT !.force = f, !.mass = N])
+    [] OTHER -> Ok([u EXCEPT !.force = f, !.mu = N, !.mass = N])
+(* set_mu (:1160): Mass swaps mu in, calls set_mass and puts the old mu back on Err; ForceMax resolves *)
+(* mass() before assigning                                                                             *)
+LSetMuNew(u, mu, opt) ==
+  CASE opt = "Mass" -> LET r == LSetMassNew([u EXCEPT !.mu = mu], Div(u.force, mu), "None")
+                       IN IF r.ok THEN r ELSE Fail(u)
+    [] opt = "ForceMax" -> IF ~Known(LMass(u)) THEN Fail(u)
+                           ELSE Ok([u EXCEPT !.mu = mu, !.force = Mul(mu, LMass(u))])
+    [] OTHER -> Ok([u EXCEPT !.mu = mu, !.mass = N])
+
+(* ---- the setters as they were (Variant = "ascoded"): ASSIGN FIRST, fail afterwards *)
+LSetMass(u, m, opt) ==                                  \* F-C20-1
   IF opt # "None" THEN Fail(u)
   ELSE LET d == LDerived(u) IN
        IF d = E THEN Fail(u)
@@ -221,25 +266,24 @@ LSetMass(u, m, opt) ==                                  \* locomotive_model.rs:6
             IN IF ~Known(LMu(u2)) THEN Fail(u2)         \* mu() errs on the stale force_max, or mu is None
                ELSE IF ~Known(LMass(u2)) THEN Fail(u2)
                ELSE Ok([u2 EXCEPT !.force = Mul(LMu(u2), LMass(u2))])
-LSetForce(u, f, opt) ==                                 \* locomotive_model.rs:704
+LSetForce(u, f, opt) ==                                 \* F-C20-1
   LET u1 == [u EXCEPT !.force = f] IN
   CASE opt = "Mass" -> IF ~Known(LMu(u1)) THEN Fail(u1) ELSE LSetMass(u1, Div(f, LMu(u1)), "None")
     [] opt = "UpdateMu" -> Ok([u1 EXCEPT !.mu = IF Known(u1.mass) THEN Div(f, u1.mass) ELSE N])
     [] opt = "SetMuToNone" -> Ok([u1 EXCEPT !.mu = N])
     [] opt = "SetMassToNone" -> Ok([u1 EXCEPT !.mass = N])
     [] OTHER -> Ok([u1 EXCEPT !.mu = N, !.mass = N])
-LSetMu(u, mu, opt) ==                                   \* locomotive_model.rs:1155
+LSetMu(u, mu, opt) ==                                   \* F-C20-3
   LET u1 == [u EXCEPT !.mu = mu] IN
   CASE opt = "Mass" -> LSetMass(u1, Div(u1.force, mu), "None")
     [] opt = "ForceMax" -> IF ~Known(LMass(u1)) THEN Fail(u1) ELSE Ok([u1 EXCEPT !.force = Mul(mu, LMass(u1))])
     [] OTHER -> Ok([u1 EXCEPT !.mass = N])
 
 LCall(u, name, a, opt) ==
-  LET r == CASE name = "SetMass" -> LSetMass(u, a, opt)
-             [] name = "SetMu" -> LSetMu(u, a, opt)
-             [] name = "SetForce" -> LSetForce(u, a, opt)
-             [] OTHER -> Ok(LExpunge(u))
-  IN IF Variant = "repaired" /\ ~r.ok THEN Fail(u) ELSE r
+  CASE name = "SetMass" -> IF Old THEN LSetMass(u, a, opt) ELSE LSetMassNew(u, a, opt)
+    [] name = "SetMu" -> IF Old THEN LSetMu(u, a, opt) ELSE LSetMuNew(u, a, opt)
+    [] name = "SetForce" -> IF Old THEN LSetForce(u, a, opt) ELSE LSetForceNew(u, a, opt)
+    [] OTHER -> Ok(LExpunge(u))
 CCall(c, name, a, opt) == IF name = "SetMass" THEN Ok(CSetMass(c, a, opt)) ELSE Ok(CExpunge(c))
 
 (* result of one call on the whole state *)
